@@ -236,6 +236,21 @@ def peer_state_cases(tier):
             sc.add(f"send {f} 1 {wg.mtok([tgt, b'x'])}", f"poll {f}", f"drop {f}", "wire 1", "wire 2")
         out.append(Case(f"peer-state-ROUTER-ident-{L}#{n}", "world", list(sc.ops), ["socket-peer-state"]))
         n += 1
+    # proxy(): whatever a peer of ONE socket sends is handed to the OTHER socket's send — a worker's message with too few
+    # frames, an unknown or empty or oversized identity frame must end in an error (the proxy may return it), never in a
+    # panic (finding D19: ROUTER's send asserted on the frame count)
+    for wm in ([b"x"], [b""], [b"c1"], [b"nobody", b"x"], [b"", b"x"], [b"Z" * 256, b"x"], [b"c1", b""], [b"c1", b"", b"ok"]):
+        sc = wg.Script()
+        sc.sock(1, "ROUTER")
+        sc.sock(2, "DEALER")
+        sc.attach(1, 1, "REQ", b"c1")
+        sc.attach(2, 11, "REP", b"w1")
+        f = sc.fut()
+        sc.add(f"proxy {f} 1 2", f"poll {f}")
+        sc.reveal_msg(11, wm)
+        sc.add(f"poll {f}", "wire 1", "halves 1", "halves 11")
+        out.append(Case(f"peer-state-proxy-worker-msg#{n}", "world", list(sc.ops), ["socket-proxied-message"]))
+        n += 1
     # REP: requests with long / odd envelopes, then the reply that has to retrace them
     for env in ([], [b"r" * 255], [b"a", b"b" * 255, b"c" * 300], [b"x"] * 40):
         sc = wg.Script()
@@ -315,6 +330,8 @@ def oracle(case, impl_lines):
             if polls and "attach" in " ".join(case.ops[-6:]) and not polls[-1].startswith("ready ok id="):
                 return f"after the hostile handshake a healthy peer is no longer admitted: {polls[-1]}"
             return None
+        if "socket-proxied-message" in case.tags:
+            return None     # (no PANIC / ABORT / TIMEOUT above: the proxy forwarded the message or returned an error)
         if "socket-peer-state" in case.tags:
             if not polls or not polls[-1].startswith("ready ok"):
                 return f"after handling a peer's odd but well-formed values the socket's own calls fail: {polls[-1:]}"
